@@ -183,7 +183,7 @@ def run_case(case):
         r = case['conns'][k]['requests'][i]
         pdu = bytes.fromhex(r['pdu'])
         uid = r['uid']
-        if not c09.accepted_by_filter(uid, single, hosted, False):
+        if not c09.accepted_by_filter(uid, single, hosted, False) and ignore:
             continue
         if not single and uid not in hosted:
             if not ignore:
